@@ -72,6 +72,8 @@ pub fn check(case: &C18Case) -> CaseOutcome
     o.class(if case.tree.cache { "cache-on" } else { "cache-off" });
     // (signal, boundary, optional second signal at a later boundary)
     let mut plans: Vec<(i32, u64, Option<(i32, u64)>)> = Vec::new();
+    // (full plan text, signal, boundary of the signal): an injected lock-write failure precedes the signal
+    let mut fault_plans: Vec<(String, i32, u64)> = Vec::new();
     match case.only
     {
         Some(p) => plans.push((p.0, p.1, None)),
@@ -82,6 +84,20 @@ pub fn check(case: &C18Case) -> CaseOutcome
                 for k in 1..=k_total + 1
                 {
                     plans.push((s, k, None));
+                }
+            }
+            // a lock-file write that fails once, followed by a stop request later in the same run
+            if !case.check_mode
+            {
+                for t in ops.iter().filter(|t| t.kind == "rename" && t.path2.ends_with("/Breadlog.lock"))
+                {
+                    for j in (t.k + 1)..=k_total
+                    {
+                        if (j - t.k) % 2 == 1 || j - t.k < 12
+                        {
+                            fault_plans.push((format!("fail:{}:ENOSPC;sig:{}:{}", t.k, j, if j % 2 == 0 { 15 } else { 2 }), if j % 2 == 0 { 15 } else { 2 }, j));
+                        }
+                    }
                 }
             }
             // a second stop request while the first is being honoured must not kill the process either
@@ -97,16 +113,33 @@ pub fn check(case: &C18Case) -> CaseOutcome
         },
     }
     let mut seen = std::collections::BTreeSet::new();
-    for (sig, k, second) in &plans
+    // unify: (plan text, first signal, its boundary, second signal, preceded by an injected lock-write failure)
+    let mut all_plans: Vec<(String, i32, u64, Option<(i32, u64)>, bool)> = plans
+        .iter()
+        .map(|(sig, k, second)| {
+            let text = match second
+            {
+                None => format!("sig:{}:{}", k, sig),
+                Some((s2, k2)) => format!("sig:{}:{};sig:{}:{}", k, sig, k2, s2),
+            };
+            (text, *sig, *k, *second, false)
+        })
+        .collect();
+    for (text, sig, k) in &fault_plans
     {
-        let plan = match second
-        {
-            None => format!("sig:{}:{}", k, sig),
-            Some((s2, k2)) => format!("sig:{}:{};sig:{}:{}", k, sig, k2, s2),
-        };
+        all_plans.push((text.clone(), *sig, *k, None, true));
+    }
+    let n_plans = all_plans.len();
+    for (plan, sig, k, second, after_fault) in &all_plans
+    {
+        let plan = plan.clone();
         if second.is_some()
         {
             o.class("two-signals");
+        }
+        if *after_fault
+        {
+            o.class("signal-after-failed-lock-write");
         }
         let fr = fault_run(&tree, case.check_mode, Some(plan.clone()), None);
         o.evals += 1;
@@ -122,10 +155,11 @@ pub fn check(case: &C18Case) -> CaseOutcome
             sig_name(*sig),
             k,
             op_desc,
-            match second
+            match (second, after_fault)
             {
-                Some((s2, k2)) => format!(" and {} before op {}", sig_name(*s2), k2),
-                None => String::new(),
+                (Some((s2, k2)), _) => format!(" and {} before op {}", sig_name(*s2), k2),
+                (None, true) => format!(" after an injected failure of a lock-file write (plan {})", plan),
+                (None, false) => String::new(),
             },
             if case.check_mode { "--check" } else { "edit" }
         );
@@ -287,7 +321,7 @@ pub fn check(case: &C18Case) -> CaseOutcome
         {
             o.extra_nontrivial.push(hash_of(&(&case.tree, case.check_mode, &plan)));
         }
-        if !o.deviations.is_empty() && plans.len() > 1 && o.deviations.len() >= 3
+        if !o.deviations.is_empty() && n_plans > 1 && o.deviations.len() >= 3
         {
             break;
         }
@@ -297,7 +331,7 @@ pub fn check(case: &C18Case) -> CaseOutcome
         "files": files.iter().map(|f| json!({"path": f.0, "bytes": f.1.len()})).collect::<Vec<_>>(),
         "files_needing_work": files_needing_work,
         "K": k_total, "discovery_starts_at_op": d,
-        "boundaries_x_signals": plans.len(),
+        "boundaries_x_signals": n_plans,
         "op_sequence": ops.iter().map(|t| format!("{}:{}", t.k, t.kind)).collect::<Vec<_>>().join(" "),
     }));
     o
@@ -319,7 +353,7 @@ pub fn run(env: &Env, rec: &Recorder) -> (String, Vec<&'static str>)
     pbt_opts(env, rec, "signals", env.cases(40, 1000), 30, &strategy, &check);
     rec.set_exhaustive(true);
     (
-        "trees of 2-8 source files (some needing insertions, some not), both modes, both styles, cache on/off, lock absent/consistent; a recording run gives the K counted operations; then for each of SIGTERM and SIGINT and EVERY boundary k in 1..=K+1 the signal is delivered immediately before operation k (LD_PRELOAD shim, thread-directed so that the handler has run before the operation starts), plus, for every boundary from the start of discovery on, a pair of signals (the second one 1-3 operations later), each on a fresh copy. Oracle from the start of source discovery on: the process exits by itself; after the signal it starts work on at most one more source file; exit 0 only if nothing was left to do (edit: a following --check passes; check: no reference missing and the last file had been reached); every source file untouched or a complete update; with the cache on and >= 1 file updated a parsable lock with next > every ID inserted. Before discovery: the process may be killed but then nothing is modified. exhaustive=true: all boundaries of each generated tree. Non-trivial = distinct (tree, mode, signal, boundary) strictly between the first and last source-file operation on a tree with >= 2 files needing work".to_string(),
+        "trees of 2-8 source files (some needing insertions, some not), both modes, both styles, cache on/off, lock absent/consistent; a recording run gives the K counted operations; then for each of SIGTERM and SIGINT and EVERY boundary k in 1..=K+1 the signal is delivered immediately before operation k (LD_PRELOAD shim, thread-directed so that the handler has run before the operation starts), plus, for every boundary from the start of discovery on, a pair of signals (the second one 1-3 operations later), plus (edit mode) every lock-file write failed once (ENOSPC) followed by a signal at the later boundaries, each on a fresh copy. Oracle from the start of source discovery on: the process exits by itself; after the signal it starts work on at most one more source file; exit 0 only if nothing was left to do (edit: a following --check passes; check: no reference missing and the last file had been reached); every source file untouched or a complete update; with the cache on and >= 1 file updated a parsable lock with next > every ID inserted. Before discovery: the process may be killed but then nothing is modified. exhaustive=true: all boundaries of each generated tree. Non-trivial = distinct (tree, mode, signal, boundary) strictly between the first and last source-file operation on a tree with >= 2 files needing work".to_string(),
         vec!["signals are delivered synchronously at libc call boundaries (kill(getpid()) from the interposer); asynchronous delivery inside a system call is not enumerated", "the harness resets SIGINT/SIGTERM to SIG_DFL in the child so that an inherited SIG_IGN cannot mask a missing handler"],
     )
 }
